@@ -113,7 +113,8 @@ class OpAdd(Op):
         if isinstance(parent, MutableSequence):
             if obj is UNDEFINED:
                 # RFC 6902: "-" or an index equal to the array's length appends.
-                if target == "-" or target == len(parent):
+                # A pointer built from parts keeps an index as a string.
+                if target == "-" or str(target) == str(len(parent)):
                     parent.append(value)
                 else:
                     raise JSONPatchError("index out of range")
